@@ -610,8 +610,10 @@ func (broker *Broker) scan() []sts.Hashed {
 
 	// Wrap the scanned file objects in type that can have hash added
 	wrapped := make([]sts.Hashed, len(files))
+	scanned := make(map[string]bool, len(files))
 	for i, file := range files {
 		wrapped[i] = &hashFile{File: file}
+		scanned[file.GetName()] = true
 		if broker.Conf.Renamer != nil {
 			log.Debug("Rename:", file.GetName(), "->", broker.Conf.Renamer(file))
 		}
@@ -625,7 +627,10 @@ func (broker *Broker) scan() []sts.Hashed {
 		switch {
 		case cached.GetHash() == "":
 			// Add any that might have failed the hash calculation last time
-			wrapped = append(wrapped, &hashFile{File: cached})
+			// (unless the scan has just returned it anyway, as changed)
+			if !scanned[cached.GetName()] {
+				wrapped = append(wrapped, &hashFile{File: cached})
+			}
 		case cached.IsDone() && broker.canDelete(cached):
 			if changed, _ := store.Sync(cached); changed != nil {
 				// Not the file that was confirmed (e.g. a new one by the
@@ -712,6 +717,15 @@ func (broker *Broker) hashFiles(opener sts.Open, in <-chan []sts.Hashed, wg *syn
 				broker.error(err)
 			}
 			fh.Close()
+			if now, err := broker.Conf.Store.Sync(file); err != nil || (now != nil &&
+				(now.GetSize() != file.GetSize() || !now.GetTime().Equal(file.GetTime()))) {
+				// Not the file that was scanned anymore (size and time are
+				// from the scan): leave it without a hash, which gets it
+				// picked up again, instead of sending a mix of two versions
+				log.Debug("Changed while hashing:", file.GetName())
+				file.(*hashFile).hash = ""
+				continue
+			}
 			log.Debug(fmt.Sprintf("HASHed %s : %s", file.GetName(), file.(*hashFile).hash))
 		}
 	}
@@ -1365,7 +1379,7 @@ func (broker *Broker) startRetry(wg *sync.WaitGroup) {
 			broker.info("Ignoring changed failed file:", file.GetName())
 			continue
 		}
-		if cached.GetHash() != file.GetHash() || cached.GetSize() != file.GetSize() {
+		if cached.GetHash() != file.GetHash() {
 			// Same as above except that the scan has already picked up the
 			// change: the version that failed is not the one in the cache,
 			// which is already in the send Q (or about to be hashed again)
